@@ -13,9 +13,13 @@ USER_MACROS = [
     "(defmacro my-or2 (a b) `(let ((tmp ,a)) (if tmp tmp ,b)))",
     "(defmacro quoted (x) `'(when ,x))",
     "(defmacro pair (a &optional b) `(cons ,a ,b))",
+    # macros that use their argument forms as data: the definition is applied to the forms as written
+    "(defmacro show (form) `(list ',form ,form))",
+    "(defmacro op-of (form) (list 'quote (if (consp form) (car form) form)))",
+    "(defmacro keep (&rest forms) `',forms)",
 ]
 ARITY = {'inc': (1, 2), 'my-when': (1, None), 'my-unless': (1, None), 'twice': (1, 1), 'k7': (0, 0), 'second-arg': (2, None),
-         'with-x': (1, None), 'plus-all': (0, None), 'my-or2': (2, 2), 'quoted': (1, 1), 'pair': (1, 2)}
+         'with-x': (1, None), 'plus-all': (0, None), 'my-or2': (2, 2), 'quoted': (1, 1), 'pair': (1, 2), 'show': (1, 1), 'op-of': (1, 1), 'keep': (0, None)}
 
 class MacroGen:
     def __init__(self, rng, tick_p=0.3):
@@ -33,11 +37,13 @@ class MacroGen:
         r = self.r
         if d <= 0: return self.atom()
         def sub(): return self.form(d - 1)
-        c = r.choice(['when', 'unless', 'my-when', 'my-unless', 'twice', 'k7', 'second-arg', 'with-x', 'plus-all', 'my-or2', 'pair', 'inc',
+        c = r.choice(['when', 'unless', 'my-when', 'my-unless', 'twice', 'k7', 'second-arg', 'with-x', 'plus-all', 'my-or2', 'pair', 'inc', 'show', 'op-of', 'keep',
                       '->', '->>', 'thread-first', 'thread-last', 'if-let', 'when-let', 'if-let*', 'while-let',
                       'plain', 'plain', 'let', 'cond', 'quote', 'lambda', 'setq', 'dotted', 'dotcode'])
         if c in ('when', 'unless', 'my-when', 'my-unless'): return [c, sub()] + [sub() for _ in range(r.choice([0, 1, 2]))]
         if c == 'twice': return ['twice', sub()]
+        if c in ('show', 'op-of'): return [c, sub()]
+        if c == 'keep': return ['keep'] + [sub() for _ in range(r.choice([0, 1, 2]))]
         if c == 'k7': return ['k7']
         if c == 'second-arg': return ['second-arg', sub(), sub()] + [sub() for _ in range(r.choice([0, 1]))]
         if c == 'with-x': return ['with-x', sub(), sub()]
